@@ -14,6 +14,13 @@ representative per class of input, and compares the outcome with the IUPAC table
                                        angle.  Rules backbone-atoms / chi-atoms / chi-bases / chi-agree.
 * value returned after the atan2     - the tail of a torsion function on representatives of the atan2 value (and a
                                        structural proof that it is the identity).  Rule torsion-returned.
+* inter-stem torsion (round 4)       - Mapping2D3D.calculate_inter_stem_parameters on stub stems: which pair of stem ends
+                                       is closest x stem lengths -> the four centroids handed to the torsion function
+                                       (neighbour, end, end, neighbour), the reported type, radians scored / degrees
+                                       reported (conversions are tagged).  Rules interstem-points / interstem-units.
+* lookups (round 4)                  - tertiary_v2.Residue.find_atom + Atom.coordinates on stub frames: what was looked
+                                       up before x (coordinates changed in place | frame replaced) -> the coordinates a
+                                       later lookup returns must be the current ones.  Rule lookup-current-state.
 
 The shape of the code does not matter (if-chain, definition table walked by a loop, merged helper, local helper with
 early returns, conditional expressions).  Only when a fragment is *not evaluable* the pinned-form reading of the same
@@ -31,7 +38,7 @@ from checks.c08 import flat
 from sa import astq, intervals
 from sa.blockeval import Unknown
 from sa.consteval import Folder
-from sa.evalx import BlockEvalX, ClassStub, Stub
+from sa.evalx import BlockEvalX, ClassStub, Stub, instance_dict, set_attribute
 from sa.model import norm
 
 T1, T2 = "tertiary", "tertiary_v2"
@@ -366,6 +373,18 @@ def check_chi_t1(chk, sp) -> Optional[Dict[str, Optional[Tuple[str, ...]]]]:
     return typical
 
 
+def _pinned(chk, cond: bool, rule: str, site: str, detail_ok: str, detail_bad: str, key: str, expected: Any = None, found: Any = None) -> bool:
+    """chk.expect for the pinned-form fallbacks: in a structurally rewritten function a pinned form that is not matched says
+    nothing about the behaviour (the evaluated reading was not possible either) -> ANALYSIS-ERROR, not a VIOLATION."""
+    if cond:
+        chk.ok(rule, site, detail_ok)
+    elif chk._rewritten(site):
+        chk.error(rule, site, "the fragment is not evaluable and the pinned form is not matched in a structurally rewritten function: " + detail_bad)
+    else:
+        chk.violation(rule, site, detail_bad, key, expected, found)
+    return cond
+
+
 def _pinned_chi_t1(chk, sp) -> None:
     """Pinned-form reading (round 2): two helpers with four literal find_atom calls each + if/elif dispatch."""
     repo = chk.repo
@@ -378,9 +397,9 @@ def _pinned_chi_t1(chk, sp) -> None:
         fi = repo.func(T1, q)
         chk.note_function(fi)
         atoms = [a.args[0].value for a in astq.calls(fi.node, "find_atom") if a.args and isinstance(a.args[0], ast.Constant)]
-        chk.expect(atoms == sp["chi"][kind], "chi-atoms", fi.where, f"{kind} chi = {'-'.join(atoms)}", f"{kind} chi uses {atoms}, IUPAC says {sp['chi'][kind]}", K(fi, "atoms"), expected=sp["chi"][kind], found=atoms)
+        _pinned(chk, atoms == sp["chi"][kind], "chi-atoms", fi.where, f"{kind} chi = {'-'.join(atoms)}", f"{kind} chi uses {atoms}, IUPAC says {sp['chi'][kind]}", K(fi, "atoms"), expected=sp["chi"][kind], found=atoms)
         rets = [r for r in ast.walk(fi.node) if isinstance(r, ast.Return) and isinstance(r.value, ast.Call)]
-        chk.expect(len(rets) == 1 and norm(rets[0].value) == "torsion_angle(*atoms)", "chi-atoms", fi.where, "chi = torsion over the four atoms in order", "chi is not torsion_angle(*atoms) in list order", K(fi, "call"))
+        _pinned(chk, len(rets) == 1 and norm(rets[0].value) == "torsion_angle(*atoms)", "chi-atoms", fi.where, "chi = torsion over the four atoms in order", "chi is not torsion_angle(*atoms) in list order", K(fi, "call"))
     chi = repo.func(T1, "Residue3D.chi")
     nan = float("nan")
 
@@ -402,7 +421,7 @@ def _pinned_chi_t1(chk, sp) -> None:
                 same = (val != val and want != want) or val == want
                 if kind != "return" or not same:
                     bad[f"{letter}: purine def {'n/a' if pu != pu else 'ok'}, pyrimidine def {'n/a' if py != py else 'ok'}"] = "purine" if val == 1.25 else "pyrimidine" if val == -2.5 else repr(val)
-        chk.expect(not bad, "chi-dispatch", chi.where, "A/G use the purine definition, C/U/T the pyrimidine one, unknown names the purine definition when it can be evaluated and else the pyrimidine one (9 letters x 4 availability cases evaluated)", "Residue3D.chi picks the wrong definition: " + "; ".join(f"{k} -> {v}" for k, v in list(bad.items())[:3]), K(chi, "dispatch"), found=bad)
+        _pinned(chk, not bad, "chi-dispatch", chi.where, "A/G use the purine definition, C/U/T the pyrimidine one, unknown names the purine definition when it can be evaluated and else the pyrimidine one (9 letters x 4 availability cases evaluated)", "Residue3D.chi picks the wrong definition: " + "; ".join(f"{k} -> {v}" for k, v in list(bad.items())[:3]), K(chi, "dispatch"), found=bad)
     except Unknown as ex:
         chk.error("chi-dispatch", chi.where, f"chi dispatch not evaluable: {ex}")
     except Exception as ex:
@@ -463,7 +482,7 @@ def _pinned_chi_class(chk, cc) -> None:
     try:
         reg = intervals.region(tests[0].test, [((lambda n: norm(n) == "self.chi"), "rad")], Folder(repo, T1).fold, extra_thresholds=(-30.0, 120.0, -180.0, 180.0))
         bad = {k: v for k, v in reg.items() if -180 <= k[0] <= 180 and v != (-30 < k[0] < 120)}
-        chk.expect(not bad and norm(tests[0].body[0]) == "return GlycosidicBond.syn", "chi-class-units", cc.site(tests[0]), "syn iff -30 < chi < 120 degrees, compared in radians", f"`{norm(tests[0].test)}` does not compare the radian-valued chi with -30..120 degrees converted to radians", K(cc, "units"), found={str(k): v for k, v in list(bad.items())[:4]})
+        _pinned(chk, not bad and norm(tests[0].body[0]) == "return GlycosidicBond.syn", "chi-class-units", cc.site(tests[0]), "syn iff -30 < chi < 120 degrees, compared in radians", f"`{norm(tests[0].test)}` does not compare the radian-valued chi with -30..120 degrees converted to radians", K(cc, "units"), found={str(k): v for k, v in list(bad.items())[:4]})
     except intervals.NotThreshold as ex:
         chk.error("chi-class-units", cc.site(tests[0]), str(ex))
 
@@ -691,22 +710,576 @@ def _pinned_table_v2(chk, sp) -> None:
                 var_atom[s.targets[0].id] = m["A_"].value
     quads = sorted([var_atom.get(norm(a).split(".")[0]) for a in c.args] for c in chis)
     want = sorted([sp["chi"]["purine"], sp["chi"]["pyrimidine"]])
-    chk.expect(quads == want, "chi-atoms", ta.where, "tertiary_v2 chi quadruples = IUPAC (purine N9/C4, pyrimidine N1/C2)", f"tertiary_v2 chi quadruples are {quads}", K(ta, "chi"), expected=want, found=quads)
+    _pinned(chk, quads == want, "chi-atoms", ta.where, "tertiary_v2 chi quadruples = IUPAC (purine N9/C4, pyrimidine N1/C2)", f"tertiary_v2 chi quadruples are {quads}", K(ta, "chi"), expected=want, found=quads)
     pu = astq.first_assign(ta.node, "purine_bases")
     py = astq.first_assign(ta.node, "pyrimidine_bases")
     f = Folder(repo, T2)
-    chk.expect(pu is not None and py is not None and f.try_fold(pu) == PU_NAMES and f.try_fold(py) == PY_NAMES, "chi-bases", ta.where, "purines A/G/DA/DG, pyrimidines C/U/T/DC/DT", "the purine/pyrimidine name lists changed", K(ta, "bases"))
+    _pinned(chk, pu is not None and py is not None and f.try_fold(pu) == PU_NAMES and f.try_fold(py) == PY_NAMES, "chi-bases", ta.where, "purines A/G/DA/DG, pyrimidines C/U/T/DC/DT", "the purine/pyrimidine name lists changed", K(ta, "bases"))
     td = None
     for s in ast.walk(ta.node):
         if isinstance(s, ast.Assign) and norm(s.targets[0]) == "torsion_definitions":
             td = Folder(repo, T2).try_fold(s.value)
     want_b = {k: [tuple(x) for x in v] for k, v in sp["backbone"].items()}
     got_b = {k: v for k, v in (td or {}).items() if k != "chi"}
-    chk.expect(got_b == want_b and (td or {}).get("chi", 0) is None, "backbone-atoms", ta.where, "alpha..zeta atom quadruples equal the IUPAC table", "backbone torsion definitions differ from IUPAC", K(ta, "backbone"), expected={k: want_b[k] for k in want_b if got_b.get(k) != want_b[k]}, found={k: got_b.get(k) for k in want_b if got_b.get(k) != want_b[k]})
+    _pinned(chk, got_b == want_b and (td or {}).get("chi", 0) is None, "backbone-atoms", ta.where, "alpha..zeta atom quadruples equal the IUPAC table", "backbone torsion definitions differ from IUPAC", K(ta, "backbone"), expected={k: want_b[k] for k in want_b if got_b.get(k) != want_b[k]}, found={k: got_b.get(k) for k in want_b if got_b.get(k) != want_b[k]})
     bb = [c for c in astq.calls(ta.node, "calculate_torsion_angle") if flat(c) == flat("calculate_torsion_angle(atoms[0], atoms[1], atoms[2], atoms[3])")]
-    chk.expect(len(bb) == 1, "torsion-wrapper", ta.where, "backbone torsions pass the four atoms in definition order", "backbone torsions do not pass atoms[0..3] in order", K(ta, "backbone-call"))
+    _pinned(chk, len(bb) == 1, "torsion-wrapper", ta.where, "backbone torsions pass the four atoms in definition order", "backbone torsions do not pass atoms[0..3] in order", K(ta, "backbone-call"))
     app = [s for s in ast.walk(ta.node) if isinstance(s, ast.Expr) and norm(s.value) == "atoms.append(atom.coordinates)"]
-    chk.expect(len(app) == 1, "torsion-wrapper", ta.where, "atoms are collected in the order of the definition", "atom coordinates are not appended in definition order", K(ta, "backbone-order"))
+    _pinned(chk, len(app) == 1, "torsion-wrapper", ta.where, "atoms are collected in the order of the definition", "atom coordinates are not appended in definition order", K(ta, "backbone-order"))
+
+
+# ---------------------------------------------------------------------------------------------------------------------
+# inter-stem torsion (tertiary.Mapping2D3D.calculate_inter_stem_parameters)
+# ---------------------------------------------------------------------------------------------------------------------
+class _Pt:
+    """A centroid: a point that remembers which base pair of which stem it is (differences remember their operands)."""
+
+    _folder_stub = True
+
+    def __init__(self, tag: str, xyz: Sequence[float]):
+        self.tag, self.xyz = tag, tuple(float(v) for v in xyz)
+
+    def __sub__(self, o):
+        return _Pt(f"({self.tag} - {getattr(o, 'tag', o)})", [a - b for a, b in zip(self.xyz, _xyz(o))])
+
+    def __add__(self, o):
+        return _Pt(f"({self.tag} + {getattr(o, 'tag', o)})", [a + b for a, b in zip(self.xyz, _xyz(o))])
+
+    def __mul__(self, k):
+        if isinstance(k, _Pt):
+            return _Pt(f"({self.tag} * {k.tag})", [a * b for a, b in zip(self.xyz, k.xyz)])
+        return _Pt(f"({self.tag} * {k})", [a * k for a in self.xyz])
+
+    __rmul__ = __mul__
+
+    def __pow__(self, k):
+        return _Pt(f"({self.tag} ** {k})", [a**k for a in self.xyz])
+
+    def __neg__(self):
+        return _Pt(f"-{self.tag}", [-a for a in self.xyz])
+
+    def __iter__(self):
+        return iter(self.xyz)
+
+    def __len__(self):
+        return 3
+
+    def __getitem__(self, i):
+        return self.xyz[i]
+
+    def __repr__(self):
+        return self.tag
+
+
+def _xyz(o) -> Tuple[float, ...]:
+    return o.xyz if isinstance(o, _Pt) else tuple(o)
+
+
+class Rad(float):
+    """Outcome of a degrees -> radians conversion (remembers its input)."""
+
+    def __new__(cls, d):
+        o = float.__new__(cls, math.radians(d))
+        o.of = d
+        return o
+
+
+class Deg(float):
+    """Outcome of a radians -> degrees conversion (remembers its input)."""
+
+    def __new__(cls, r):
+        o = float.__new__(cls, math.degrees(r))
+        o.of = r
+        return o
+
+
+def _geom_np() -> Stub:
+    norm_ = lambda v, *a: math.sqrt(sum(c * c for c in _xyz(v)))
+    np_ = _np_stub()
+    np_.__dict__.update(
+        linalg=Stub("numpy.linalg", norm=norm_),
+        dot=lambda a, b: sum(x * y for x, y in zip(_xyz(a), _xyz(b))),
+        sum=lambda v, *a: sum(_xyz(v)),
+        sqrt=math.sqrt,
+        array=lambda v, *a: v if isinstance(v, _Pt) else _Pt("array", v),
+        asarray=lambda v, *a: v if isinstance(v, _Pt) else _Pt("array", v),
+        degrees=Deg,
+        rad2deg=Deg,
+        radians=Rad,
+        deg2rad=Rad,
+    )
+    return np_
+
+
+def _math_stub() -> Stub:
+    return Stub("math", radians=Rad, degrees=Deg, pi=math.pi, tau=math.tau, inf=math.inf, nan=math.nan, e=math.e, sqrt=math.sqrt, exp=math.exp, log=math.log, cos=math.cos, sin=math.sin, fabs=math.fabs, isnan=math.isnan, isclose=math.isclose, dist=lambda a, b: math.dist(_xyz(a), _xyz(b)))
+
+
+class _VonMises:
+    _folder_stub = True
+
+    def __init__(self, kappa, loc):
+        self.kappa, self.loc, self.asked = kappa, loc, []
+
+    def pdf(self, x):
+        self.asked.append(x)
+        return 0.5 if float(x) == float(self.loc) else 0.2
+
+
+_END = {"first": "5", "last": "3"}
+
+
+def _stem_layout(n1: int, n2: int, e1: str, e2: str) -> Tuple[List[_Pt], List[_Pt]]:
+    """Two stems of n1 / n2 base-pair centroids; the closest pair of stem ends is (e1 of stem 1, e2 of stem 2), strictly."""
+    s1 = [(3.0 * k, 0.0, 0.0) for k in range(n1)]
+    a = s1[0] if e1 == "first" else s1[-1]
+    line = [(a[0] + 0.4 + 0.3 * k, 2.0 + 3.0 * k, 0.5 + 1.0 * k) for k in range(n2)]  # k = 0 is the end next to `a`
+    s2 = line if e2 == "first" else line[::-1]
+    if n1 >= 2 and n2 >= 2:
+        d = {(x, y): math.dist(s1[0 if x == "first" else -1], s2[0 if y == "first" else -1]) for x in _END for y in _END}
+        if sorted(d, key=d.get)[0] != (e1, e2) or sorted(d.values())[1] - sorted(d.values())[0] < 0.5:
+            raise Unknown("stub layout of the stems does not single out the intended pair of ends")
+    return [_Pt(f"stem1[{k}]", p) for k, p in enumerate(s1)], [_Pt(f"stem2[{k}]", p) for k, p in enumerate(s2)]
+
+
+def check_interstem(chk) -> bool:
+    """The inter-stem torsion is the dihedral about the junction of the two stems: the four points handed to the torsion function
+    are (neighbour of end 1 in stem 1, end 1, end 2, neighbour of end 2 in stem 2) for the pair of stem ends (end 1, end 2) that
+    realises the minimum distance, the arrangement is reported under the name of that pair, the value is scored in radians and
+    reported in degrees.  Decided by evaluating the method on stub stems (4 closest-end cases x 3 pairs of stem lengths).
+    False when the method is not evaluable (the caller reads the pinned form)."""
+    repo = chk.repo
+    ci = repo.func(T1, "Mapping2D3D.calculate_inter_stem_parameters")
+    chk.note_function(ci)
+    wrong_pts: Dict[str, str] = {}
+    wrong_type: Dict[str, str] = {}
+    wrong_units: Dict[str, str] = {}
+    n_cases = 0
+    try:
+        for n1, n2 in ((2, 2), (3, 4), (4, 2), (1, 3), (3, 1)):
+            for e1 in _END:
+                for e2 in _END:
+                    c1, c2 = _stem_layout(n1, n2, e1, e2)
+                    stems = {"stem 1": c1, "stem 2": c2}
+                    made: List[_VonMises] = []
+
+                    def vonmises(*a, **k):
+                        vm = _VonMises(k.get("kappa", a[0] if a else None), k.get("loc", a[1] if len(a) > 1 else 0.0))
+                        made.append(vm)
+                        return vm
+
+                    vonmises._folder_keywords = True
+                    glob = {"calculate_torsion_angle_coords": _tor_stub, "torsion_angle": _tor_stub, "numpy": _geom_np(), "np": _geom_np(), "math": _math_stub(), "vonmises": vonmises, "distance_pdf": (lambda d, *a: 0.75)}
+                    me = ClassStub(repo, T1, "Mapping2D3D", {"get_stem_coordinates": (lambda st: list(stems[st]))}, glob, label="mapping")
+                    try:
+                        got = me.calculate_inter_stem_parameters("stem 1", "stem 2")
+                    except _STUB_LIMITS as ex:
+                        raise Unknown(f"{type(ex).__name__}: {ex}")
+                    n_cases += 1
+                    case = f"stems of {n1} and {n2} base pairs whose closest ends are the {e1} pair of stem 1 and the {e2} pair of stem 2"
+                    if n1 < 2 or n2 < 2:
+                        if got is not None:
+                            wrong_pts[case] = f"a result ({_short(got)}) although a stem with one base pair has no direction"
+                        continue
+                    if not isinstance(got, dict):
+                        raise Unknown(f"the method returns {got!r} for two stems of {n1} and {n2} base pairs")
+                    tors = [v for v in got.values() if isinstance(v, (Deg, Rad)) and isinstance(v.of, Tor)] + [v for v in got.values() if isinstance(v, Tor)]
+                    asked = [x for vm in made for x in vm.asked if isinstance(x, (Tor, Deg, Rad)) and (isinstance(x, Tor) or isinstance(x.of, Tor))]
+                    tor = next((t if isinstance(t, Tor) else t.of for t in tors + asked), None)
+                    if tor is None:
+                        raise Unknown("no value of the torsion function reaches the result")
+                    i1, i2 = (0, 1) if e1 == "first" else (n1 - 1, n1 - 2)
+                    j1, j2 = (0, 1) if e2 == "first" else (n2 - 1, n2 - 2)
+                    want = (f"stem1[{i2}]", f"stem1[{i1}]", f"stem2[{j1}]", f"stem2[{j2}]")
+                    if tuple(tor.quad) != want:
+                        q = list(tor.quad)
+                        why = f" - the central bond of the dihedral is {q[1]}-{q[2]}, not the closest pair of ends {want[1]}-{want[2]}" if len(q) == 4 and tuple(q[1:3]) != want[1:3] else ""
+                        wrong_pts[case] = f"{q} instead of {list(want)}{why}"
+                    name = "cs" + _END[e1] + _END[e2]
+                    if got.get("type") != name:
+                        wrong_type[case] = f"{got.get('type')!r} instead of {name!r}"
+                    out = got.get("torsion_angle")
+                    if not (isinstance(out, Deg) and isinstance(out.of, Tor)):
+                        wrong_units[case] = f"'torsion_angle' is {_unit_text(out)}, expected the value of the torsion function converted to degrees"
+                    for vm in made:
+                        bad = [x for x in vm.asked if isinstance(x, (Deg, Rad)) and isinstance(x.of, Tor)]
+                        if bad:
+                            wrong_units[case] = f"the von Mises density (a function of an angle in radians) is evaluated at {_unit_text(bad[0])}"
+                        elif any(isinstance(x, Tor) for x in vm.asked) and not isinstance(vm.loc, Rad):
+                            wrong_units[case] = f"the von Mises density is centred at {_unit_text(vm.loc)}, expected a mean converted from degrees to radians"
+                    if not any(isinstance(x, Tor) for vm in made for x in vm.asked) and not wrong_units.get(case):
+                        raise Unknown("the torsion value is not scored by a von Mises density the rule can follow")
+    except Unknown as ex:
+        chk.ok("chi-eval", ci.where, f"calculate_inter_stem_parameters is not evaluable on stub stems ({str(ex)[:120]}): the pinned-form reading decides")
+        return False
+    except Exception as ex:
+        chk.violation("interstem-points", ci.where, f"calculate_inter_stem_parameters raises {type(ex).__name__} ({ex}) on two stub stems", K(ci, "points-raises"))
+        return True
+    chk.expect(
+        not wrong_pts,
+        "interstem-points",
+        ci.where,
+        f"the inter-stem torsion is computed over (neighbour of end 1, end 1, end 2, neighbour of end 2) where (end 1, end 2) is the closest pair of stem ends: the central bond of the dihedral is the junction ({n_cases} cases: which ends are closest x stem lengths; a stem of one base pair gives no value)",
+        "the four points of the inter-stem torsion are not (neighbour, end, end, neighbour) about the closest pair of stem ends: " + "; ".join(f"{k}: {v}" for k, v in list(wrong_pts.items())[:2]),
+        K(ci, "points"),
+        expected="(stem1[neighbour of end 1], stem1[end 1], stem2[end 2], stem2[neighbour of end 2])",
+        found=dict(list(wrong_pts.items())[:4]),
+    )
+    chk.expect(
+        not wrong_type,
+        "interstem-points",
+        ci.where,
+        "the arrangement is reported as cs<end of stem 1><end of stem 2> (5 = first base pair, 3 = last) of the closest pair of ends",
+        "the reported arrangement does not name the closest pair of stem ends: " + "; ".join(f"{k}: {v}" for k, v in list(wrong_type.items())[:2]),
+        K(ci, "type"),
+        found=dict(list(wrong_type.items())[:4]),
+    )
+    chk.expect(
+        not wrong_units,
+        "interstem-units",
+        ci.where,
+        "inter-stem torsion: the value of the torsion function (radians) is scored by a von Mises density whose mean was converted to radians, and reported in degrees (evaluated)",
+        "inter-stem torsion units: " + "; ".join(f"{k}: {v}" for k, v in list(wrong_units.items())[:2]),
+        K(ci, "units"),
+        found=dict(list(wrong_units.items())[:4]),
+    )
+    return True
+
+
+def _unit_text(v: Any) -> str:
+    if isinstance(v, Deg):
+        return f"degrees({_unit_text(v.of)})"
+    if isinstance(v, Rad):
+        return f"radians({_unit_text(v.of)})"
+    if isinstance(v, Tor):
+        return "the torsion value (radians)"
+    return f"the plain number {v!r}" if isinstance(v, (int, float)) else repr(v)[:40]
+
+
+def _short(v: Any) -> str:
+    return repr(v)[:60]
+
+
+# ---------------------------------------------------------------------------------------------------------------------
+# tertiary_v2.Residue.find_atom / Atom.coordinates: a lookup answers from the frame as it is NOW
+# ---------------------------------------------------------------------------------------------------------------------
+class _Mask:
+    _folder_stub = True
+
+    def __init__(self, bits):
+        self.bits = list(bits)
+
+    def __and__(self, o):
+        return _Mask(a and b for a, b in zip(self.bits, o.bits))
+
+    def __or__(self, o):
+        return _Mask(a or b for a, b in zip(self.bits, o.bits))
+
+    def __invert__(self):
+        return _Mask(not a for a in self.bits)
+
+    def any(self):
+        return any(self.bits)
+
+    def sum(self):
+        return sum(self.bits)
+
+    def __len__(self):
+        return len(self.bits)
+
+
+class _ILoc:
+    _folder_stub = True
+
+    def __init__(self, get, n):
+        self.get, self.n = get, n
+
+    def __getitem__(self, i):
+        if not isinstance(i, int):
+            raise Unknown("positional indexing other than by one integer")
+        if not -self.n <= i < self.n:
+            raise IndexError("single positional indexer is out-of-bounds")
+        return self.get(i % self.n)
+
+
+class _Loc:
+    _folder_stub = True
+
+    def __init__(self, frame):
+        self.frame = frame
+
+    def __getitem__(self, k):
+        if isinstance(k, _Mask):
+            return self.frame[k]
+        if isinstance(k, tuple) and len(k) == 2 and isinstance(k[0], _Mask) and isinstance(k[1], (str, list)):
+            return self.frame[k[0]][k[1]]
+        raise Unknown("label indexing other than by a boolean mask (and columns)")
+
+
+class _Column:
+    _folder_stub = True
+
+    def __init__(self, values):
+        self.values = list(values)
+
+    def __eq__(self, v):
+        return _Mask(x == v for x in self.values)
+
+    def __ne__(self, v):
+        return _Mask(x != v for x in self.values)
+
+    __hash__ = None
+
+    def isin(self, vs):
+        return _Mask(x in list(vs) for x in self.values)
+
+    @property
+    def iloc(self):
+        return _ILoc(lambda i: self.values[i], len(self.values))
+
+    def tolist(self):
+        return list(self.values)
+
+    def to_numpy(self):
+        return list(self.values)
+
+    def eq(self, v):
+        return self == v
+
+    def any(self):
+        return any(self.values)
+
+    def __iter__(self):
+        return iter(self.values)
+
+    def __len__(self):
+        return len(self.values)
+
+
+class _Row:
+    """One row taken out of a frame: a copy (what pandas gives for `frame[mask].iloc[0]`)."""
+
+    _folder_stub = True
+
+    def __init__(self, cells: Dict[str, Any]):
+        self.cells = dict(cells)
+
+    def __getitem__(self, k):
+        if isinstance(k, str):
+            return self.cells[k]
+        raise Unknown("row indexing other than by a column name")
+
+    def __contains__(self, k):
+        return k in self.cells
+
+    def get(self, k, default=None):
+        return self.cells.get(k, default)
+
+    @property
+    def index(self):
+        return list(self.cells)
+
+
+class _Frame:
+    """What the lookup needs of a pandas frame of atoms.  Rows are live: the rule moves the coordinates *in place* (the frame
+    object stays the same), boolean-mask selection and .iloc[i] give copies as in pandas."""
+
+    _folder_stub = True
+
+    def __init__(self, rows: List[Dict[str, Any]], fmt: str):
+        self.rows = rows
+        self.attrs = {"format": fmt}
+
+    @property
+    def columns(self):
+        return list(self.rows[0]) if self.rows else []
+
+    def __getitem__(self, k):
+        if isinstance(k, str):
+            if k not in self.columns:
+                raise KeyError(k)
+            return _Column(r[k] for r in self.rows)
+        if isinstance(k, _Mask):
+            if len(k) != len(self.rows):
+                raise ValueError("Item wrong length")
+            return _Frame([dict(r) for r, b in zip(self.rows, k.bits) if b], self.attrs["format"])
+        if isinstance(k, list):
+            return _Frame([{c: r[c] for c in k} for r in self.rows], self.attrs["format"])
+        raise Unknown("frame indexing other than by a column name, a list of names or a boolean mask")
+
+    @property
+    def iloc(self):
+        return _ILoc(lambda i: _Row(self.rows[i]), len(self.rows))
+
+    @property
+    def loc(self):
+        return _Loc(self)
+
+    @property
+    def empty(self):
+        return not self.rows
+
+    def iterrows(self):
+        return [(i, _Row(r)) for i, r in enumerate(self.rows)]
+
+    def head(self, n=5):
+        return _Frame([dict(r) for r in self.rows[:n]], self.attrs["format"])
+
+    def reset_index(self, *a, **k):
+        return _Frame([dict(r) for r in self.rows], self.attrs["format"])
+
+    def copy(self, *a):
+        return _Frame([dict(r) for r in self.rows], self.attrs["format"])
+
+    def to_dict(self, orient="dict"):
+        if orient != "records":
+            raise Unknown("to_dict other than records")
+        return [dict(r) for r in self.rows]
+
+    def __len__(self):
+        return len(self.rows)
+
+
+_XYZ = {"PDB": ("x", "y", "z"), "mmCIF": ("Cartn_x", "Cartn_y", "Cartn_z")}
+_LOOKUP_ATOMS = ["P", "O5'", "C5'", "C4'", "C3'", "O3'", "C1'", "N9"]
+
+
+def _atom_rows(fmt: str, name_cols: Sequence[str], shift: float) -> List[Dict[str, Any]]:
+    rows = []
+    for i, a in enumerate(_LOOKUP_ATOMS):
+        row: Dict[str, Any] = {c: a for c in name_cols}
+        row.update({"element": a[0], "type_symbol": a[0]})
+        for k, c in enumerate(_XYZ[fmt]):
+            row[c] = shift + 1.0 + i + 0.25 * k
+        rows.append(row)
+    return rows
+
+
+def check_lookup_current(chk) -> None:
+    """The torsion table asks `residue.find_atom(name).coordinates` for every atom.  Fact: that answer is a function of the residue's
+    frame as it is at the time of the call - whatever was looked up before on the same residue (the classes of a call history that
+    matter to a memo: the same atom asked before / another atom asked before / the class' own connectivity test ran before), an
+    in-place change of the coordinate columns (a rigid motion written back, a superposition) or a replaced frame is what a later
+    lookup sees.  Otherwise a table computed after a motion mixes positions from before and after it: the torsions are no longer
+    invariant under a rigid motion.  Decided by evaluating find_atom and Atom.coordinates on stub frames."""
+    repo = chk.repo
+    rule = "lookup-current-state"
+    if not repo.has_func(T2, "Residue.find_atom"):
+        chk.error(rule, f"src/rnapolis/{T2}.py Residue", "Residue.find_atom not found: how the torsion table reaches the coordinates cannot be read")
+        return
+    fa = repo.func(T2, "Residue.find_atom")
+    chk.note_function(fa)
+    np_ = _np_stub()
+    np_.__dict__.update(array=lambda v, *a: _Pt("xyz", v), asarray=lambda v, *a: _Pt("xyz", v), linalg=Stub("numpy.linalg", norm=lambda v, *a: _Norm(math.sqrt(sum(c * c for c in _xyz(v))))))
+    glob: Dict[str, Any] = {"np": np_, "numpy": np_}
+
+    def atom(data, fmt):
+        return ClassStub(repo, T2, "Atom", {"data": data, "format": fmt}, glob, label="atom")
+
+    glob["Atom"] = atom
+
+    def residue(fmt, name_cols, shift=0.0):
+        fr = _Frame(_atom_rows(fmt, name_cols, shift), fmt)
+        return ClassStub(repo, T2, "Residue", {"atoms": fr, "format": fmt}, glob, label="residue"), fr
+
+    def coords(res, name):
+        a = res.find_atom(name)
+        if a is None:
+            return None
+        c = a.coordinates
+        return tuple(float(x) for x in c)
+
+    def expected(fr, fmt, name_cols, name):
+        for r in fr.rows:
+            if r[name_cols[0]] == name:
+                return tuple(float(r[c]) for c in _XYZ[fmt])
+        return None
+
+    layouts = [("PDB", ["name"]), ("mmCIF", ["auth_atom_id", "label_atom_id"]), ("mmCIF", ["label_atom_id"])]
+    histories = [
+        ("nothing was looked up before", lambda res, other: None),
+        ("the same atoms were looked up before", lambda res, other: [coords(res, a) for a in ("O3'", "P", "C4'")]),
+        ("other atoms were looked up before", lambda res, other: [coords(res, a) for a in ("C1'", "N9")]),
+        ("the connectivity test of the class ran before", lambda res, other: (res.is_connected(other), other.is_connected(res))),
+    ]
+    changes = [
+        ("the coordinate columns of the residue's frame are changed in place", "in-place"),
+        ("the residue's frame is replaced by a moved copy", "replaced"),
+    ]
+    stale: Dict[str, str] = {}
+    wrong: Dict[str, str] = {}
+    leftovers: Dict[str, str] = {}
+    n = 0
+    try:
+        for fmt, name_cols in layouts:
+            for hlabel, history in histories:
+                for clabel, how in changes:
+                    res, fr = residue(fmt, name_cols)
+                    other, _ = residue(fmt, name_cols, shift=0.5)
+                    before = set(instance_dict(res))
+                    try:
+                        history(res, other)
+                    except _STUB_LIMITS + (Unknown,) as ex:
+                        if "connectivity" in hlabel:
+                            continue  # the connectivity test is outside the evaluable fragment: the other histories decide
+                        raise Unknown(f"{type(ex).__name__}: {ex}")
+                    left = sorted(set(instance_dict(res)) - before)
+                    if how == "in-place":
+                        for r in fr.rows:
+                            for c in _XYZ[fmt]:
+                                r[c] = r[c] + 10.0
+                    else:
+                        fr = _Frame([{k: (v + 10.0 if k in _XYZ[fmt] else v) for k, v in r.items()} for r in fr.rows], fmt)
+                        set_attribute(res, "atoms", fr)
+                    for a in ("O3'", "P", "C4'", "C1'", "XX"):
+                        n += 1
+                        try:
+                            got = coords(res, a)
+                        except _STUB_LIMITS as ex:
+                            raise Unknown(f"{type(ex).__name__}: {ex}")
+                        want = expected(fr, fmt, name_cols, a)
+                        if got == want:
+                            continue
+                        case = f"{fmt} frame with {'/'.join(name_cols)}: {hlabel}, then {clabel}, then find_atom({a!r}).coordinates"
+                        old = None if want is None else tuple(x - 10.0 for x in want)
+                        if got is not None and got == old:
+                            stale[case] = f"{got} (the position from before the change) instead of {want}"
+                            if left:
+                                leftovers[case] = ", ".join(f"`{k}`" for k in left)
+                        else:
+                            wrong[case] = f"{got} instead of {want}"
+    except Unknown as ex:
+        chk.error(rule, fa.where, f"Residue.find_atom / Atom.coordinates are not evaluable on a stub frame ({str(ex)[:140]}): whether a lookup after a change of the coordinates sees the change is not decided")
+        return
+    except Exception as ex:
+        chk.error(rule, fa.where, f"evaluation of Residue.find_atom on a stub frame failed: {type(ex).__name__}: {str(ex)[:120]}")
+        return
+    if stale:
+        k = next(iter(stale))
+        kept = f"; the earlier call leaves {leftovers[k]} on the residue object, which the later lookup answers from" if k in leftovers else ""
+        chk.violation(
+            rule,
+            fa.where,
+            f"a lookup does not answer from the current frame: {k} returns {stale[k]}{kept}. What find_atom returns depends on what was asked before the coordinates changed ({len(stale)} of {n} lookups stale), "
+            "so a torsion table computed after a rigid motion / superposition was written back mixes positions from before and after it: the torsions are not those of the moved structure (nor invariant under the motion)",
+            K(fa, "lookup-stale"),
+            expected="the coordinates in the frame at the time of the call",
+            found=dict(list(stale.items())[:4]),
+        )
+    elif wrong:
+        k = next(iter(wrong))
+        chk.violation(rule, fa.where, f"find_atom(name).coordinates is not the position of the first atom of that name in the residue's frame: {k} returns {wrong[k]}", K(fa, "lookup-wrong"), found=dict(list(wrong.items())[:4]))
+    else:
+        chk.ok(rule, fa.where, f"find_atom(name).coordinates is the position the residue's frame holds at the time of the call: {n} lookups after a change of the coordinates (in place / frame replaced) x what was looked up before (nothing, the same atoms, other atoms, the connectivity test) x 3 frame layouts all see the changed coordinates; an absent atom stays absent")
+
+
+class _Norm(float):
+    """numpy scalar: has .item()"""
+
+    _folder_stub = True
+
+    def item(self):
+        return float(self)
 
 
 def check_chi(chk) -> None:
